@@ -27,7 +27,12 @@ func Render(v any) []byte {
 	return b.Bytes()
 }
 
-func render(b *bytes.Buffer, v any) {
+func render(b *bytes.Buffer, v any) { renderDepth(b, v, 0) }
+
+func renderDepth(b *bytes.Buffer, v any, depth int) {
+	if depth > 2000 {
+		panic("harness: value nested deeper than 2000 levels (cyclic structure?)")
+	}
 	switch x := v.(type) {
 	case Raw:
 		b.WriteString(string(x))
@@ -46,7 +51,7 @@ func render(b *bytes.Buffer, v any) {
 			kb, _ := json.Marshal(name)
 			b.Write(kb)
 			b.WriteByte(':')
-			render(b, x[k])
+			renderDepth(b, x[k], depth+1)
 		}
 		b.WriteByte('}')
 	case []any:
@@ -55,7 +60,7 @@ func render(b *bytes.Buffer, v any) {
 			if i > 0 {
 				b.WriteByte(',')
 			}
-			render(b, e)
+			renderDepth(b, e, depth+1)
 		}
 		b.WriteByte(']')
 	default:
@@ -66,6 +71,26 @@ func render(b *bytes.Buffer, v any) {
 		}
 		b.Write(eb)
 	}
+}
+
+// copyTree copies maps and slices (leaves, incl. Raw, are immutable): a mutation must never alias a
+// sub-tree into two places, a later mutation through one alias could otherwise tie a cycle.
+func copyTree(v any) any {
+	switch x := v.(type) {
+	case map[string]any:
+		out := make(map[string]any, len(x))
+		for k, e := range x {
+			out[k] = copyTree(e)
+		}
+		return out
+	case []any:
+		out := make([]any, len(x))
+		for i, e := range x {
+			out[i] = copyTree(e)
+		}
+		return out
+	}
+	return v
 }
 
 type slot struct {
@@ -150,13 +175,13 @@ var replacements = []func(t *rapid.T, old any) any{
 		case map[string]any:
 			out := []any{}
 			for _, k := range sortedKeysAny(x) {
-				out = append(out, x[k])
+				out = append(out, copyTree(x[k]))
 			}
 			return out
 		case []any:
 			out := map[string]any{}
 			for i, e := range x {
-				out[strconv.Itoa(i)] = e
+				out[strconv.Itoa(i)] = copyTree(e)
 			}
 			return out
 		case string:
@@ -168,8 +193,8 @@ var replacements = []func(t *rapid.T, old any) any{
 		}
 		return "x"
 	},
-	func(t *rapid.T, old any) any { return []any{old} },
-	func(t *rapid.T, old any) any { return map[string]any{"schema": old, "items": old} },
+	func(t *rapid.T, old any) any { return []any{copyTree(old)} },
+	func(t *rapid.T, old any) any { return map[string]any{"schema": copyTree(old), "items": copyTree(old)} },
 	func(t *rapid.T, old any) any {
 		return deepNest([]int{5, 50, 200}[Uniform(t, "depth", 3)], []string{"not", "items", "additionalProperties", "[", "properties", "allOf"}[Uniform(t, "nestkw", 6)])
 	},
@@ -216,7 +241,7 @@ func Mutate(t *rapid.T, v any) (any, MutationInfo) {
 		switch op := Uniform(t, "mutop", 10); {
 		case op == 0 && isMember: // duplicate the member with another value
 			if !strings.HasPrefix(s.key, dupPrefix) {
-				m[dupPrefix+s.key] = replacements[Uniform(t, "duprepl", len(replacements))](t, s.get())
+				m[dupPrefix+s.key] = replacements[Uniform(t, "duprepl", len(replacements))](t, copyTree(s.get()))
 				info.Duplicated = true
 			}
 		case op == 1 && isMember: // case-fold the member name
